@@ -45,15 +45,17 @@ def make_open(model):
     def _open(path, mode='r', *args, **kwargs):
         if 'w' not in mode:
             return open(path, mode, *args, **kwargs)
+        # whatever else the library passes to open() (an opener, an encoding) is passed on: the buffering model is the only
+        # thing this stand-in decides
         if model == 'default':
-            return open(path, mode)
+            return open(path, mode, *args, **kwargs)
         if model == 'line':
-            return open(path, mode, buffering=1)
+            return open(path, mode, *args, **dict(kwargs, buffering=1))
         if model == 'flush-per-write':
-            return FlushingFile(open(path, mode))
+            return FlushingFile(open(path, mode, *args, **kwargs))
         if model.startswith('tiny-'):
             size = int(model.split('-')[1])
-            raw = io.FileIO(path, 'w')
+            raw = io.FileIO(path, 'w', opener=kwargs.get('opener'))
             buf = io.BufferedWriter(raw, buffer_size=size)
             text = io.TextIOWrapper(buf, write_through=True)
             text.mode = mode
